@@ -64,7 +64,9 @@ type Opts struct {
 	//     sniffs r.line[50:53] by byte),
 	//   - non-ASCII text that first appears after byte 1024 of the file (the
 	//     reader's charset sniffing then decodes the stream as windows-1252),
-	//   - Addenda98 carrying iatCorrectedData (String() is 100 columns).
+	//   - Addenda98 carrying iatCorrectedData (String() is 100 columns),
+	//   - ADV files with more than 300 entries (createFileADV does not
+	//     truncate the summed entry hash to 10 digits, Validate does).
 	Risky bool
 }
 
@@ -105,7 +107,8 @@ var secTable = map[string]secInfo{
 	ach.IAT: {credit: true, debit: true, prenote: true, zeroDollar: true, returns: true},
 }
 
-// AllSECs returns the 22 SEC codes ach.NewBatch handles plus "IAT", sorted.
+// AllSECs returns the 22 SEC codes ach.NewBatch builds a Batcher for, plus
+// "IAT" (which has its own IATBatch type), sorted: 23 codes in all.
 func AllSECs() []string {
 	return []string{
 		ach.ACK, ach.ADV, ach.ARC, ach.ATX, ach.BOC, ach.CCD, ach.CIE, ach.COR, ach.CTX, ach.DNE, ach.ENR, ach.IAT,
